@@ -1,0 +1,44 @@
+//go:build verif
+
+package replicator
+
+import "sort"
+
+// VerifState is a snapshot of the replicator's private bookkeeping for the model-checking harness.
+type VerifState struct {
+	Added, Fetching, Fetched []string
+	QueueLen                 int
+	BufferLen                int
+	InProgress               int64
+}
+
+// VerifStater is implemented by the replicator when built with the verif tag.
+type VerifStater interface {
+	VerifState() VerifState
+}
+
+func (r *replicator) VerifState() VerifState {
+	r.muProcess.RLock()
+	defer r.muProcess.RUnlock()
+
+	s := VerifState{QueueLen: r.queue.Len(), InProgress: r.taskInProgress}
+	for c, st := range r.tasks {
+		switch st {
+		case stateAdded:
+			s.Added = append(s.Added, c.String())
+		case stateFetching:
+			s.Fetching = append(s.Fetching, c.String())
+		case stateFetched:
+			s.Fetched = append(s.Fetched, c.String())
+		}
+	}
+	sort.Strings(s.Added)
+	sort.Strings(s.Fetching)
+	sort.Strings(s.Fetched)
+
+	r.muBuffer.Lock()
+	s.BufferLen = len(r.buffer)
+	r.muBuffer.Unlock()
+
+	return s
+}
